@@ -355,7 +355,11 @@ func (usi *UnrotatedSegmentInfo) DoCMICheckForUnrotated(currQuery *structs.Searc
 	if isRange {
 		err = usi.doRangeCheckForCols(timeFilteredBlocks, rangeFilter, rangeOp, colsToCheck, qid)
 	} else if !wildcardValue {
-		err = usi.doBloomCheckForCols(timeFilteredBlocks, bloomWords, originalBloomWords, bloomOp, colsToCheck, qid)
+		// a block without the word holds only matches of a negated term, so the bloom cannot prune it
+		negateMatch := currQuery.MatchFilter != nil && currQuery.MatchFilter.NegateMatch
+		if !negateMatch {
+			err = usi.doBloomCheckForCols(timeFilteredBlocks, bloomWords, originalBloomWords, bloomOp, colsToCheck, qid)
+		}
 	}
 
 	numFinalBlocks := uint64(len(timeFilteredBlocks))
